@@ -317,8 +317,9 @@ def _ex(name, lang, nn, ops, note, ordered=None):
 EXPLAIN = [
     _ex('E1', 'Lf', 2, [add(f(0, 1)), add(g(0, 1)), unionj(f(0, 1), g(0, 1), 'j1'), explain(f(0, 1), g(0, 1)), explain(g(1, 0), f(1, 0))],
         'one asserted equation: the leaf itself; the renamed and flipped instance'),
-    _ex('E2', 'Lf', 2, [add(f(0, 1)), add(g(0, 1)), add(h(0, 1, 1)), unionj(f(0, 1), g(0, 1), 'fg'), unionj(h(0, 1, 1), g(0, 1), 'hg'), explain(f(0, 1), h(0, 1, 1)), explain(h(1, 0, 0), f(1, 0))],
-        'transitivity through a class that was merged twice (union-find chain)'),
+    _ex('E2', 'Lf', 2, [add(f(0, 1)), add(g(0, 1)), add(h(0, 1, 1)), add(w(0, 1, 0, 1)), unionj(f(0, 1), g(0, 1), 'fg'), unionj(h(0, 1, 1), g(0, 1), 'hg'), unionj(f(0, 1), w(0, 1, 0, 1), 'fw'),
+                        explain(f(0, 1), h(0, 1, 1)), explain(h(1, 0, 0), w(1, 0, 1, 0))],
+        'transitivity through a union-find chain; later assertions about both sides of an earlier union (whichever class was moved, a leaf speaks about a term that is no longer a leader)'),
     _ex('E3', 'Lb', 2, [add(u(k(0, 1))), add(u(j(0, 1))), unionj(k(0, 1), j(0, 1), 'kj'), explain(u(k(0, 1)), u(j(0, 1))), explain(lam(0, k(0, 1)), lam(0, j(0, 1))), explain(lam(1, u(j(1, 0))), lam(1, u(k(1, 0))))],
         'congruence, also under a binder (terms the e-graph has not seen before the query)'),
     _ex('E5', 'Lf', 2, [add(f(0, 1)), add(f(1, 0)), unionj(f(0, 1), f(1, 0), 'swap'), explain(f(0, 1), f(1, 0)), add(g(0, 1)), unionj(g(0, 1), f(0, 1), 'gf'), explain(g(0, 1), g(1, 0))],
@@ -326,11 +327,26 @@ EXPLAIN = [
     _ex('E6', 'Lf', 3, [add(h(0, 1, 2)), add(h(1, 2, 0)), unionj(h(0, 1, 2), h(1, 2, 0), 'rot'), explain(h(0, 1, 2), h(1, 2, 0)), explain(h(0, 1, 2), h(2, 0, 1)), explain(h(2, 0, 1), h(0, 1, 2))],
         'a symmetry of order 3: the asserted rotation, its square, its inverse (permutation and inverse differ)'),
 ]
+EXPLAIN += [
+    _ex('E8', 'Lb', 3, [add(u(t3(0, 1, 2))), add(t3(1, 2, 0)), unionj(t3(0, 1, 2), t3(1, 2, 0), 'rot'), explain(u(t3(0, 1, 2)), u(t3(2, 0, 1)))],
+        'congruence over a child class with a symmetry of order 3 that the parent class inherits (determine_self_symmetries)'),
+]
+EXPLAIN += [
+    _ex('E10', 'Lf', 3, [add(h(0, 1, 2)), add(h(1, 2, 0)), unionj(h(0, 1, 2), h(1, 2, 0), 'rot'), add(w(0, 1, 2, 2)),
+                         unionj(w(0, 1, 2, 2), h(0, 1, 2), 'wh'), explain(w(0, 1, 2, 2), w(1, 2, 0, 0)), explain(w(2, 0, 1, 1), h(0, 1, 2))],
+         'a class with a symmetry of order 3 is merged with another class afterwards: the generators and their proofs are transported (move_to)'),
+    _ex('E10~flip', 'Lf', 3, [add(h(0, 1, 2)), add(h(1, 2, 0)), unionj(h(0, 1, 2), h(1, 2, 0), 'rot'), add(w(0, 1, 2, 2)), add(w(2, 0, 1, 1)), add(w(1, 2, 0, 0)),
+                              unionj(h(0, 1, 2), w(0, 1, 2, 2), 'hw'), explain(w(0, 1, 2, 2), w(1, 2, 0, 0)), explain(w(2, 0, 1, 1), h(0, 1, 2))],
+         'the same with the other class larger and the union flipped, so that the symmetric class is the one that moves'),
+    _ex('E11', 'Lf', 3, [add(h(0, 1, 2)), add(h(1, 0, 2)), unionj(h(0, 1, 2), h(1, 0, 2), 's01'), add(h(0, 2, 1)), unionj(h(0, 1, 2), h(0, 2, 1), 's12'), explain(h(0, 1, 2), h(1, 2, 0)), explain(h(0, 1, 2), h(2, 0, 1)),
+                         explain(h(0, 1, 2), h(2, 1, 0))],
+         'a non-abelian symmetry group (S3 from two transpositions): products in both orders'),
+]
 EXPLAIN_THOROUGH = [
     _ex('E4', 'Lb', 3, [add(u(k(0, 1))), add(u(j(0, 1))), unionj(k(0, 1), j(0, 1), 'kj'), explain(lam(1, u(j(1, 0))), lam(2, u(k(2, 0))))],
         'congruence under binders with different bound names (alpha-variants)'),
     _ex('E7', 'Lf', 3, [add(f(0, 1)), add(f(0, 2)), unionj(f(0, 1), f(0, 2), 'red'), explain(f(0, 1), f(0, 2)), explain(f(1, 0), f(1, 2))],
         'a redundant slot: the equation between two instances that differ in the redundant argument'),
-    _ex('E8', 'Lb', 3, [add(u(t3(0, 1, 2))), add(t3(1, 2, 0)), unionj(t3(0, 1, 2), t3(1, 2, 0), 'rot'), explain(u(t3(0, 1, 2)), u(t3(2, 0, 1))), explain(lam(0, t3(0, 1, 2)), lam(0, t3(1, 2, 0)))],
+    _ex('E9', 'Lb', 3, [add(u(t3(0, 1, 2))), add(t3(1, 2, 0)), unionj(t3(0, 1, 2), t3(1, 2, 0), 'rot'), explain(u(t3(0, 1, 2)), u(t3(1, 2, 0))), explain(lam(0, t3(0, 1, 2)), lam(0, t3(1, 2, 0)))],
         'congruence over a child class with a symmetry of order 3, also under a binder'),
 ]
